@@ -117,11 +117,22 @@ fn run_config(r: Arc<dyn Runner>, prop: Prop, tier: Tier, known: Arc<HashSet<Str
     let t0 = Instant::now();
     let b = edges::bounds(prop, tier);
     let stats = Arc::new(Mutex::new(Stats::default()));
-    let inits = init_states(&*r, prop, tier, b.cmax);
-    let model = VecModel { runner: r.clone(), prop, tier, lmax: b.lmax, cmax: b.cmax, known, stats: stats.clone(), inits, faults: prop == Prop::C06, keep_going: std::env::var("MC_KEEP_GOING").is_ok() };
-    let checker = model.checker().threads(1).spawn_bfs().join();
-    let states = checker.unique_state_count();
-    let max_depth = checker.max_depth();
+    // two phases, so that the first counterexample is also the smallest: the exhaustive (len <= L) space first, the wide / big
+    // initial states (leaves with reduced alphabets) only if that found nothing
+    let all_inits = init_states(&*r, prop, tier, b.cmax);
+    let (small, big): (Vec<McState>, Vec<McState>) = all_inits.into_iter().partition(|s| !s.wide(b.lmax));
+    let keep_going = std::env::var("MC_KEEP_GOING").is_ok();
+    let model = VecModel { runner: r.clone(), prop, tier, lmax: b.lmax, cmax: b.cmax, known: known.clone(), stats: stats.clone(), inits: small, faults: prop == Prop::C06, keep_going };
+    let mut checker = model.checker().threads(1).spawn_bfs().join();
+    let mut states = checker.unique_state_count();
+    let mut max_depth = checker.max_depth();
+    if checker.discoveries().is_empty() && !big.is_empty() {
+        let model2 = VecModel { runner: r.clone(), prop, tier, lmax: b.lmax, cmax: b.cmax, known, stats: stats.clone(), inits: big, faults: prop == Prop::C06, keep_going };
+        let checker2 = model2.checker().threads(1).spawn_bfs().join();
+        states += checker2.unique_state_count();
+        max_depth = max_depth.max(checker2.max_depth());
+        if !checker2.discoveries().is_empty() { checker = checker2; }
+    }
     let discoveries = checker.discoveries();
     let mut paths = Vec::new();
     for (_name, path) in discoveries {
